@@ -1054,31 +1054,31 @@ fn row_tok(r: &RowReq) -> String {
     )
 }
 
-/// (line_base, line_range) pairs that `LineProgram::new` accepts in every build
+/// (line_base, line_range) pairs that `LineProgram::new` accepts: line_base -128..0,
+/// line_range 1..255, line_base + line_range > 0
 fn gen_base_range(rng: &mut Rng) -> (i64, u64) {
-    match rng.below(12) {
-        10 => {
-            // line_range >= 128 with line_base + line_range in 1..127: refused by debug builds,
-            // let through by release builds (the i8 sum wraps)
-            let lr = rng.range(128, 255);
-            let k = rng.range((lr - 128).max(1), 127);
-            (k as i64 - lr as i64, lr)
-        }
+    match rng.below(14) {
         0 => (-5, 14),
         1 => (-3, 12),
         2 => (0, 1),
         3 => (-1, 2),
-        4 => {
-            let lr = rng.range(1, 127);
-            (0, lr)
+        4 => (-10, 242), // gcc's own
+        5 => (-128, 255),
+        6 => (0, rng.range(1, 255)),
+        7 => (-(rng.range(0, 128) as i64), 255),
+        8 => {
+            // line_base + line_range = 1: only the special opcodes for a line advance of 0
+            let lr = rng.range(1, 129);
+            (1 - lr as i64, lr)
         }
-        5 => {
-            let lb = -(rng.range(0, 126) as i64);
-            (lb, 127)
+        9 | 10 => {
+            // large line_range: special_base + special_line can exceed 255
+            let lr = rng.range(200, 255);
+            (-(rng.below(lr.min(129)) as i64), lr)
         }
         _ => {
-            let lr = rng.range(1, 127);
-            let lb = -(rng.below(lr) as i64);
+            let lr = rng.range(1, 255);
+            let lb = -(rng.below(lr.min(129)) as i64);
             (lb, lr)
         }
     }
@@ -1289,7 +1289,10 @@ pub fn gen(ctx: &Ctx, emit: &mut dyn FnMut(String)) {
     }
     tuples.push((4, 4, -1, 3));
     tuples.push((2, 2, -100, 127));
-    let extra = ctx.n(4, 40);
+    tuples.push((1, 1, -10, 242));
+    tuples.push((2, 2, -128, 255));
+    tuples.push((1, 4, -3, 250));
+    let extra = ctx.n(2, 40);
     for _ in 0..extra {
         let (lb, lr) = gen_base_range(&mut rng);
         tuples.push((*rng.pick(&[1u64, 2, 4]), *rng.pick(&[1u64, 2, 4]), lb, lr));
@@ -1301,21 +1304,22 @@ pub fn gen(ctx: &Ctx, emit: &mut dyn FnMut(String)) {
         let oa_hi = if ctx.tier == Tier::Thorough || full_quick.contains(&i) { 600 } else { 40 };
         emit(format!("blk-wline @MODE@ {} {mil} {mo} {lb} {lr} -300 300 0 {oa_hi}", if rng.chance(1, 2) { 4 } else { 5 }));
     }
-    // 2b. smaller grids for every line_range 1..127 (x a seed-chosen line_base), and for line_range
-    //     128..255 (which `new` refuses or — release builds — partly accepts)
+    // 2b. smaller grids for every line_range 1..255 (x line_base values incl. the extremes)
     for lr in 1..=255u64 {
-        let lbs: Vec<i64> = if lr <= 127 {
-            if ctx.tier == Tier::Thorough { vec![0, -((lr - 1) as i64), -(rng.below(lr) as i64)] } else { vec![-(rng.below(lr) as i64), if lr % 2 == 0 { 0 } else { -((lr - 1) as i64) }] }
+        let lo = -((lr - 1).min(128) as i64); // smallest line_base with line_base + line_range > 0
+        let lbs: Vec<i64> = if ctx.tier == Tier::Thorough {
+            vec![0, lo, -(rng.below(lr.min(129)) as i64)]
         } else {
-            // line_base + line_range = 127 (accepted by release builds), and one refused pair
-            vec![127 - lr as i64, -(rng.below(129) as i64).max(128 - lr as i64)]
+            vec![-(rng.below(lr.min(129)) as i64), if lr % 2 == 0 { 0 } else { lo }]
         };
         for lb in lbs {
             let mil = *rng.pick(&[1u64, 2, 4]);
             let mo = *rng.pick(&[1u64, 2, 4]);
-            let span = if lr <= 127 { ctx.n(40, 150) as i64 } else { ctx.n(130, 150) as i64 };
+            // wide enough to cross both ends of the special-opcode window of this encoding
+            let span = ctx.n(40, 150) as i64;
+            let (la_lo, la_hi) = if lr <= 60 || ctx.tier == Tier::Thorough { (-span.max(lr as i64 + 6), span.max(lr as i64 + 6)) } else { (lb - 6, lb + lr as i64 + 6) };
             let oa_hi = ctx.n(2 * 260 / lr as usize + 8, (4 * 260 / lr as usize + 40).min(600));
-            emit(format!("blk-wline @MODE@ 4 {mil} {mo} {lb} {lr} -{span} {span} 0 {oa_hi}"));
+            emit(format!("blk-wline @MODE@ 4 {mil} {mo} {lb} {lr} {la_lo} {la_hi} 0 {oa_hi}"));
         }
     }
     // 3. single (previous row, next row) pairs, all row fields varied
